@@ -91,6 +91,8 @@ def gen_cases(ctx):
             c['hint'] = rng.choice(pipelib.HINTS)      # the source also has a __length_hint__, right or wrong
         if c['label'] != 'corpus' and rng.random() < 0.15:
             c['unprintable_elements'] = True           # elements whose repr()/str() raise: the stage has no business printing them
+        if c['label'] != 'corpus' and not c.get('unprintable_elements') and rng.random() < 0.2:
+            c['element_kind'] = rng.choice(['range', 'twins'])   # elements that are range objects / equal-but-different numbers
         if c['label'] != 'corpus' and rng.random() < 0.2:
             c['library_warnings_are_errors'] = True    # as under `python -W error`: a warning the library raises is an exception
     return cases
@@ -109,6 +111,7 @@ def judge(ctx, case, res, mout):
     key = (case['cfg'], case['table'], case.get('schedule'), case['fkind'], case.get('kwargs'))
     small = dict(cfg=case['cfg'], n=case['n'], table=case['table'], fkind=case['fkind'], kwargs=case.get('kwargs'),
                  schedule=case.get('schedule'), tail=case.get('tail'), demand=case.get('demand'), label=case['label'])
+    pipelib.carry_flags(small, case)
     if 'harness_error' in res:
         raise core.InfraError('scenario runner failed: ' + res['harness_error'])
     ooo = out_of_order(res['events'])
